@@ -29,6 +29,7 @@ Import ListNotations.
 Inductive gval :=
 | GNil                       (* nil interface *)
 | GInt (z : Z)
+| GStr                       (* a string (the value of __typename) *)
 | GList                      (* a []any *)
 | GObj                       (* a *OrderedMap *)
 | GUnit.                     (* struct{}{} *)
